@@ -3,7 +3,14 @@ pub mod c03;
 pub mod c04;
 pub mod c05;
 pub mod c06;
+pub mod c07;
+pub mod c08;
+pub mod c09;
+pub mod c10;
+pub mod c11;
+pub mod c12;
 pub mod c13;
+pub mod rules;
 pub mod c14;
 pub mod c18;
 
@@ -20,6 +27,12 @@ fn table(prop: &str) -> Option<(RunFn, ReplayFn)> {
         "C04" => (c04::run, c04::replay),
         "C05" => (c05::run, c05::replay),
         "C06" => (c06::run, c06::replay),
+        "C07" => (c07::run, c07::replay),
+        "C08" => (c08::run, c08::replay),
+        "C09" => (c09::run, c09::replay),
+        "C10" => (c10::run, c10::replay),
+        "C11" => (c11::run, c11::replay),
+        "C12" => (c12::run, c12::replay),
         "C13" => (c13::run, c13::replay),
         "C14" => (c14::run, c14::replay),
         "C18" => (c18::run, c18::replay),
